@@ -92,7 +92,7 @@ def rule_R2_one_access(ctx, f, rid="R2", methods=("set", "get", "inc_by", "dec_b
                    site=b.raw["span"]["at"])
             deleg = _self_calls(b)
             eff = [c for c in effect_calls(b) if not atomic_prim(c) and c not in deleg
-                   and not c.matches(["u64_to_f64", "f64_to_u64", "f64::from_bits", "f64::to_bits", "Result::is_ok", "Result::is_err"])]
+                   and not c.matches(["u64_to_f64", "f64_to_u64", "f64::from_bits", "f64::to_bits", "Result::is_ok", "Result::is_err", "i64::wrapping_neg", "wrapping_neg"])]
             ctx.ob(rid, key + "|no-other-effects", not eff, "%s must contain no other effectful call (found %s)" % (key, eff))
             kinds = [p for _, p in ev]
             if any(p in ("compare_exchange", "compare_exchange_weak") for p in kinds):
@@ -127,11 +127,17 @@ def rule_R2_one_access(ctx, f, rid="R2", methods=("set", "get", "inc_by", "dec_b
                 blocks = [c.bb for c, _ in ev]
                 rng = count_range(b, blocks)
                 ok = rng == (1, 1) and len(ev) == 1 and kinds[0] in EXPECT[m]
+                negated_add = False
+                if not ok and m == "dec_by" and rng == (1, 1) and len(ev) == 1 and kinds[0] == "fetch_add":
+                    # x - d == x + (-d) in two's complement: fetch_add(d.wrapping_neg()) is fetch_sub(d)
+                    a1 = peel(ev[0][0].args[1], transparent=[])
+                    negated_add = (is_call(a1, ["wrapping_neg"]) and peel(a1[2][0]) == ("param", 2)) or (isinstance(a1, tuple) and a1[0] == "unop" and a1[1] == "Neg" and peel(a1[2]) == ("param", 2))
+                    ok = negated_add
                 ctx.ob(rid, key + "|one-primitive", ok,
                        "%s must perform exactly one %s on every path (found %s, per-path count %s)" % (key, "/".join(sorted(EXPECT[m])), kinds, rng),
                        site=site(b, blocks[0]))
                 c = ev[0][0]
-                if m in ("set", "inc_by", "dec_by") and ok:
+                if m in ("set", "inc_by", "dec_by") and ok and not negated_add:
                     val = peel(c.args[1], transparent=["f64_to_u64"])
                     ctx.ob(rid, key + "|operand", val == ("param", 2),
                            "the operand of the %s in %s must be the caller's value unchanged (found %s)" % (kinds[0], key, show(c.args[1])), site=c.span)
